@@ -692,6 +692,12 @@ func (m *Module) judge(w *engine.World, f *feed, pv *pendingValue, data string) 
 		if len(distinct) >= 3 {
 			// the order of a float64 summation can show here (C11)
 			w.Hit("oraclefeed.avg_batch_three_distinct_answers")
+			if f.Name == PriceFeedName {
+				w.Hit("oraclefeed.avg_batch_three_distinct_answers_price_feed")
+			}
+		}
+		if pv.ex.orderSensitive {
+			w.Hit("oraclefeed.avg_batch_order_sensitive")
 		}
 	}
 	if pv.ex.ambiguous {
